@@ -527,12 +527,12 @@ func (v *PacketDslVisitorImpl) VisitMatchPair(ctx *gen.MatchPairContext) interfa
 	val := ctx.IDENTIFIER().GetText()
 	var key string
 	if ctx.DIGITS() != nil {
-		key = ctx.DIGITS().GetText()
+		key = decimalMatchKey(ctx.DIGITS().GetText())
 	} else if ctx.STRING() != nil {
 		key = ctx.STRING().GetText()
 	} else if ctx.List() != nil {
 		for _, k := range ctx.List().AllDIGITS() {
-			pairs = append(pairs, model.MatchPair{Key: k.GetText(), Value: val, Line: k.GetSymbol().GetLine(), Column: k.GetSymbol().GetTokenSource().GetCharPositionInLine()})
+			pairs = append(pairs, model.MatchPair{Key: decimalMatchKey(k.GetText()), Value: val, Line: k.GetSymbol().GetLine(), Column: k.GetSymbol().GetTokenSource().GetCharPositionInLine()})
 		}
 		for _, k := range ctx.List().AllSTRING() {
 			pairs = append(pairs, model.MatchPair{Key: k.GetText(), Value: val, Line: k.GetSymbol().GetLine(), Column: k.GetSymbol().GetTokenSource().GetCharPositionInLine()})
@@ -541,6 +541,15 @@ func (v *PacketDslVisitorImpl) VisitMatchPair(ctx *gen.MatchPairContext) interfa
 	}
 
 	return append(pairs, model.MatchPair{Key: key, Value: val, Line: ctx.GetStart().GetLine(), Column: ctx.GetStart().GetTokenSource().GetCharPositionInLine()})
+}
+
+// decimalMatchKey drops the leading zeros of an integer match key: DIGITS is a decimal number, and a key
+// emitted as written (010) would be an octal literal in Go, Java and C++ and no literal at all in Python.
+func decimalMatchKey(digits string) string {
+	if t := strings.TrimLeft(digits, "0"); t != "" {
+		return t
+	}
+	return "0"
 }
 
 // VisitRefMetaDataDeclaration handles reference metadata declarations.
